@@ -422,3 +422,74 @@ Definition client_extract (buflen : nat) (buf : list N) (plen : nat) : da_result
       else r
   | None => r
   end.
+
+(* ---- NS and A auxiliary responses ---------------------------------------------------- *)
+
+(* strcasecmp on ASCII letters (C locale) *)
+Definition lc (ch : N) : N := if (65 <=? ch) && (ch <=? 90) then ch + 32 else ch.
+Fixpoint caseeq (a b : list N) : bool :=
+  match a, b with
+  | [], [] => true
+  | x :: a', y :: b' => (lc x =? lc y) && caseeq a' b'
+  | _, _ => false
+  end.
+
+(* dns_encode_ns_response(buf, buflen, q, topdomain); dest = Some 4 address bytes when the
+   destination of the query was IPv4.  None: returns <= 0 (nothing is sent). *)
+Definition dns_encode_ns_response (buflen : nat) (q : query) (topdomain : list N) (dest : option (list N))
+  : option (list N) :=
+  if (buflen <? 12)%nat then None else
+  let name := q_name q in
+  if (length name <? length topdomain)%nat then None else
+  let domain_len := (length name - length topdomain)%nat in
+  if (domain_len =? 1)%nat then None else
+  if negb (caseeq (skipn domain_len name) topdomain) then None else
+  if (1 <=? domain_len)%nat && negb (nth (domain_len - 1) name 0 =? DOTC) then None else
+  let hdr := hdr_bytes (q_id q) 132 0 1 1 0 (match dest with Some _ => 1 | None => 0 end) in
+  let topname := 49152 + (N.of_nat (12 + domain_len)) mod 16384 in
+  let qn := opt_bytes (putname (buflen - 12) name) in
+  let p0 := hdr ++ qn in
+  if negb (checklen buflen p0 4) then None else
+  let p1 := p0 ++ be16 (q_type q) ++ be16 C_IN in
+  if negb (checklen buflen p1 12) then None else
+  let p2 := p1 ++ [192; 12] ++ be16 (q_type q) ++ be16 C_IN ++ be32 3600 ++ be16 5 in
+  let nsname := 49152 + (N.of_nat (length p2)) mod 16384 in
+  if negb (checklen buflen p2 5) then None else
+  let p3 := p2 ++ [2; 110; 115] ++ be16 topname in
+  match dest with
+  | None => Some p3
+  | Some ip =>
+      if negb (checklen buflen p3 12) then None else
+      let p4 := p3 ++ be16 nsname ++ be16 T_A ++ be16 C_IN ++ be32 3600 ++ be16 4 in
+      if negb (checklen buflen p4 4) then None else
+      Some (p4 ++ firstn 4 ip)
+  end.
+
+Definition dns_encode_a_response (buflen : nat) (q : query) (dest : option (list N)) : option (list N) :=
+  match dest with
+  | None => None
+  | Some ip =>
+      if (buflen <? 12)%nat then None else
+      let hdr := hdr_bytes (q_id q) 132 0 1 1 0 0 in
+      let qn := opt_bytes (putname (buflen - 12) (q_name q)) in
+      let p0 := hdr ++ qn in
+      if negb (checklen buflen p0 4) then None else
+      let p1 := p0 ++ be16 (q_type q) ++ be16 C_IN in
+      if negb (checklen buflen p1 12) then None else
+      let p2 := p1 ++ [192; 12] ++ be16 (q_type q) ++ be16 C_IN ++ be32 3600 ++ be16 4 in
+      if negb (checklen buflen p2 4) then None else
+      Some (p2 ++ firstn 4 ip)
+  end.
+
+(* the three non-tunnel answers of tunnel_dns for a query whose data length (query_datalen) is dl:
+   "ns." A query, "www." A query (127.0.0.1), NS query.  ns_ip: Some bytes when -n is set. *)
+Definition aux_answer (q : query) (dl : nat) (dest ns_ip : option (list N)) : option (list N) :=
+  let n := q_name q in
+  let c i := lc (nth i n 0) in
+  if (dl =? 3)%nat && (q_type q =? T_A) && (c 0%nat =? 110) && (c 1%nat =? 115) && (nth 2 n 0 =? DOTC) then
+    dns_encode_a_response buf64k q (match ns_ip with Some ip => Some ip | None => dest end)
+  else if (dl =? 4)%nat && (q_type q =? T_A) && (c 0%nat =? 119) && (c 1%nat =? 119) && (c 2%nat =? 119) && (nth 3 n 0 =? DOTC) then
+    dns_encode_a_response buf64k q (Some [127; 0; 0; 1])
+  else if q_type q =? T_NS then
+    dns_encode_ns_response buf64k q (skipn dl n) (match ns_ip with Some ip => Some ip | None => dest end)
+  else None.
